@@ -107,7 +107,7 @@ Qed.
 
 Lemma Inv_dyn_setup g0 i params inj s : Inv g0 s -> Inv g0 (fst (dyn_setup u i params inj s)).
 Proof.
-  intros HI. unfold dyn_setup.
+  intros HI.
   assert (Hdefault : forall inj', (match inj' with Some FReset | Some FBuild | Some FProcSetUp => False | _ => True end) ->
     Inv g0 (fst (dyn_setup u i params inj' s))).
   { intros inj' Hinj. unfold dyn_setup.
@@ -118,8 +118,8 @@ Proof.
     all: apply (Inv_hset g0 s _ a (u_decorate u params g) Eg); [reflexivity|reflexivity|cbn; rewrite Eg; reflexivity|exact HI]. }
   destruct inj as [[| | | | | |]|]; try (apply Hdefault; exact I).
   - (* FReset *) exact HI.
-  - (* FBuild *) cbn -[act]. apply Inv_act. exact HI.
-  - (* FProcSetUp *) cbn -[act].
+  - (* FBuild *) unfold dyn_setup. cbn -[act]. apply Inv_act. exact HI.
+  - (* FProcSetUp *) unfold dyn_setup. cbn -[act].
     destruct (s_graph s) as [a|] eqn:Eg; [|apply (Inv_eq g0 s); [reflexivity|reflexivity|cbn; rewrite Eg; reflexivity|exact HI]].
     destruct (h_get a (s_heap s)) as [g|] eqn:Ea; [|apply (Inv_eq g0 s); [reflexivity|reflexivity|cbn; rewrite Eg; reflexivity|exact HI]].
     destruct (u_oracle u i) as [[rs ls] ds]. cbn -[act]. apply Inv_act.
@@ -156,6 +156,31 @@ Qed.
 Lemma Inv_initial g0 limit : Inv g0 (initial u g0 limit).
 Proof. unfold Inv, initial. simpl. repeat split. lia. Qed.
 
+Lemma setup_proto i params inj (s : state) : s_proto (fst (setup u i params inj s)) = s_proto s.
+Proof.
+  unfold setup, net_setup, dyn_setup.
+  destruct (s_remaining (prologue s)) as [[|n]|]; destruct inj as [[| | | | | |]|]; cbn -[act];
+  repeat match goal with
+         | |- context [h_get ?a ?h] => destruct (h_get a h); cbn -[act]
+         | |- context [match s_graph ?x with _ => _ end] => destruct (s_graph x); cbn -[act]
+         | |- context [u_oracle u i] => destruct (u_oracle u i) as [[? ?] ?]; cbn -[act]
+         | |- context [act ?f ?x] => rewrite (proj1 (act_fields f x)); cbn -[act]
+         end; reflexivity.
+Qed.
+
+Lemma run_once_proto i params o (s : state) : s_proto (fst (run_once u i params o s)) = s_proto s.
+Proof.
+  unfold run_once. set (inj := match o with Ok => None | FailAt f => Some f end).
+  pose proof (setup_proto i params inj s) as Hs.
+  destruct (setup u i params inj s) as [s1 [|]]; [exact Hs|]. simpl in Hs.
+  destruct inj as [[| | | |k| |]|]; cbn -[act]; rewrite ?(proj1 (act_fields _ _)); exact Hs.
+Qed.
+
+Lemma run_all_proto h : forall i (s : state), s_proto (run_all u i h s) = s_proto s.
+Proof.
+  induction h as [|[params o] h IH]; intros i s; simpl; [reflexivity|]. rewrite IH. apply run_once_proto.
+Qed.
+
 (* the prototype's value after any history is the one it was constructed with *)
 Theorem prototype_unchanged g0 limit h :
   let s := run_all u 0 h (initial u g0 limit) in
@@ -163,24 +188,8 @@ Theorem prototype_unchanged g0 limit h :
   /\ match s_graph s with Some a => a <> s_proto s | None => True end.
 Proof.
   cbv zeta. pose proof (Inv_run_all g0 h 0 _ (Inv_initial g0 limit)) as (H1 & H2 & H3).
-  split; [exact H1|]. split.
-  - clear. generalize 0 at 1. generalize (initial u g0 limit) at 1 2. intros s.
-    assert (forall i s, s_proto (run_all u i h s) = s_proto s).
-    { induction h as [|[params o] h IH]; intros i s0; simpl; [reflexivity|]. rewrite IH.
-      unfold run_once. set (inj := match o with Ok => None | FailAt f => Some f end).
-      assert (Hs : s_proto (fst (setup u i params inj s0)) = s_proto s0).
-      { unfold setup, net_setup, dyn_setup.
-        destruct (s_remaining (prologue s0)) as [[|n]|]; destruct inj as [[| | | | | |]|]; cbn;
-        repeat match goal with
-               | |- context [h_get ?a ?h] => destruct (h_get a h); cbn
-               | |- context [s_graph ?x] => destruct (s_graph x); cbn
-               | |- context [u_oracle u i] => destruct (u_oracle u i) as [[? ?] ?]; cbn
-               | |- context [act ?f ?x] => rewrite (proj1 (act_fields f x)); cbn
-               end; reflexivity. }
-      destruct (setup u i params inj s0) as [s1 [|]]; [exact Hs|]. simpl in Hs.
-      destruct inj as [[| | | |k| |]|]; cbn -[act]; rewrite ?(proj1 (act_fields _ _)); exact Hs. }
-    intro n. rewrite H. reflexivity.
-  - destruct (s_graph _); [exact (proj1 H3)|exact I].
+  split; [exact H1|]. split; [rewrite run_all_proto; reflexivity|].
+  destruct (s_graph _); [exact (proj1 H3)|exact I].
 Qed.
 
 (* ------------------------------------------------------------------ the state at simulationStarted *)
